@@ -148,8 +148,10 @@ func ruleVerifyRound() *Rule {
 					root := root
 					a := NewAnalysis(p, NewSpace(GhostAtom("counterIncremented", "no", "yes")))
 					type site struct {
-						o *Observation
-						g guard
+						o    *Observation
+						g    guard
+						live bool   // the operation marked is an element of a collection read from node state at this moment
+						src  string // that collection
 					}
 					var sites []site
 					var incFld *types.Var
@@ -159,7 +161,17 @@ func ruleVerifyRound() *Rule {
 								fa := s.Addr.(*ssa.FieldAddr)
 								n := instrOrdinal(in, func(x ssa.Instruction) bool { sx, fl := storeField(x); return sx != nil && fl == verFld })
 								o := a.Observe("MARK store Operation.quorumVerified := true"+ordSuffix(n)+" in "+chainKey(f), f, in, st)
-								sites = append(sites, site{o, findGuard(f, s, fa.X)})
+								live, src := true, "unknown source"
+								if ex, ok := fa.X.(*ssa.Extract); ok {
+									if nx, ok := ex.Tuple.(*ssa.Next); ok {
+										if rg, ok := nx.Iter.(*ssa.Range); ok {
+											t := p.Canon(f, rg.X)
+											src = t.S
+											live = t.readsMemory() && !strings.HasPrefix(t.S, "@")
+										}
+									}
+								}
+								sites = append(sites, site{o, findGuard(f, s, fa.X), live, src})
 							}
 						}
 						return st
@@ -194,6 +206,9 @@ func ruleVerifyRound() *Rule {
 						dedup[s.o.Key] = true
 						ob := Obligation{Rule: id, Construct: s.o.Key, Pos: s.o.Pos}
 						switch {
+						case !s.g.ok && !s.live:
+							ob.Verdict = Undecided
+							ob.Detail = "the read is marked quorum-verified without a stamp/round comparison, but the operations marked are not taken from the live table of pending reads (" + s.src + "): a design this rule does not recognise (e.g. a set captured when the round was started); not decided"
 						case !s.g.ok:
 							ob.Verdict = Violated
 							ob.Detail = "the read is marked quorum-verified without comparing a stamp of the operation with the identity of the confirming round: a heartbeat round that was already in flight when the read was submitted confirms it, " +
